@@ -166,7 +166,7 @@ impl<T: Read + Seek> E57Reader<T> {
         let mut paged_reader =
             PagedReader::new(reader, page_size).read_err("Failed creating paged CRC reader")?;
         let mut buffer = vec![0_u8; page_size as usize];
-        let mut page = 0;
+        let mut page = 0_u64;
         while paged_reader
             .read(&mut buffer)
             .read_err(format!("Failed to validate CRC for page {page}"))?
